@@ -159,6 +159,26 @@ func c20Pairs(w *core.W, j int) {
 				}{"field:" + l.Fields[fi].Go, v})
 			}
 		}
+		if l.Type == 42 { // APL: the same address written as an IPv4 item and as an IPv4-mapped IPv6 item
+			if items, ok := base.Vals[0].([]model.APLItem); ok {
+				for i, it := range items {
+					if it.Family != 1 {
+						continue
+					}
+					v := cloneRec(base)
+					ni := append([]model.APLItem(nil), items...)
+					afd := append(append(make([]byte, 10), 0xff, 0xff), it.AFD...)
+					ni[i] = model.APLItem{Family: 2, Prefix: it.Prefix, Neg: it.Neg, AFD: afd}
+					v.Vals[0] = ni
+					v.Fixup()
+					variants = append(variants, struct {
+						name string
+						r    *model.Rec
+					}{"apl-ipv4-mapped-item", v})
+					break
+				}
+			}
+		}
 		cl := cloneRec(base)
 		cl.Class ^= 2
 		if l.Type != 41 && l.Type != 250 {
